@@ -85,8 +85,8 @@ fn props() -> Vec<Prop> {
         run: c04::run_case,
     }, Prop {
         id: "C05",
-        rule: "grammars: hand-written corpus (a^n b^n, nested/sequenced parentheses, left-recursive expressions, S->SS|a|eps, mutual recursion, unit cycles, nullable chains, hidden left recursion, palindromes), three parametric grammars (expanded by parameter reachability), random grammars over ? * + {m,n} groups and references with unconfusable terminals, 'nullable-web' grammars (many mutually dependent nullable symbols referenced in every index order, short strings); for each the engine is walked over every byte string up to max_len over the grammar alphabet plus a junk byte, and the accepting flag of every reachable prefix and the allowed/refused status of every next byte are compared with the proved Lean spec (cfg q); multi-byte tokens of a synthetic vocabulary are compared the same way at sampled prefixes; along seeded walks (also on Lark grammars with regex lexemes and %ignore and on JSON schemas: family rows-any) the item set of every Earley row of the real parser is compared with the Lean rows model M4; distinct non-trivial = distinct grammars walked",
-        quick_cases: 48,
+        rule: "grammars: hand-written corpus (a^n b^n, nested/sequenced parentheses, left-recursive expressions, S->SS|a|eps, mutual recursion, unit cycles, nullable chains, hidden left recursion, palindromes), seven parametric grammars (expanded by parameter reachability; four with one rule live under several parameter values at the same position), random grammars over ? * + {m,n} groups and references with unconfusable terminals, 'nullable-web' grammars (many mutually dependent nullable symbols referenced in every index order, short strings); for each the engine is walked over every byte string up to max_len over the grammar alphabet plus a junk byte, and the accepting flag of every reachable prefix and the allowed/refused status of every next byte are compared with the proved Lean spec (cfg q); multi-byte tokens of a synthetic vocabulary are compared the same way at sampled prefixes; along seeded walks (also on Lark grammars with regex lexemes and %ignore and on JSON schemas: family rows-any) the item set of every Earley row of the real parser is compared with the Lean rows model M4; distinct non-trivial = distinct grammars walked",
+        quick_cases: 58,
         thorough_cases: 160,
         gen: c05::gen_case,
         run: c05::run_case,
@@ -351,20 +351,34 @@ fn main() {
     rep.model_requests = mb.len() as u64;
     match mb.run() {
         Ok(mm) => {
-            for m in mm.iter().take(10) {
+            let mut per_sig: std::collections::HashMap<String, usize> = Default::default();
+            let mut overflow = 0u64;
+            for m in mm.iter() {
                 // queries to a proved *specification* decider (S4 chart recogniser, S5 validator, S2 regex language via a
                 // checked DFA certificate, numeric emptiness): a disagreement is
                 // a concrete input on which the implementation departs from the property
                 let is_spec = m.request.starts_with("cfg q ") || m.request.starts_with("json v ") || m.request.starts_with("num sat ") || m.request.starts_with("rx qs ") || m.request.starts_with("sch sat ");
+                // C05: the two corpus grammars that record the known finding on parametric rules (several parameter
+                // values of one rule live at one position, with a conditional empty alternative) carry their own
+                // signature; every other disagreement keeps the general one
+                let c = &cases[m.tag];
+                let sig = if p.id == "C05" && is_spec && c["kind"] == "param" && c["i"].as_u64().map(|i| i % 7 >= 5).unwrap_or(false) {
+                    format!("c05:parametric-several-live-values-{}", c["i"].as_u64().unwrap() % 7)
+                } else {
+                    format!("{}:{}", p.id.to_lowercase(), if is_spec { "spec-mismatch" } else { "model-mismatch" })
+                };
+                let n = per_sig.entry(sig.clone()).or_insert(0);
+                *n += 1;
+                if *n > 10 { overflow += 1; continue; }
                 rep.fail(
                     if is_spec { "spec" } else { "model" },
-                    &format!("{}:{}", p.id.to_lowercase(), if is_spec { "spec-mismatch" } else { "model-mismatch" }),
+                    &sig,
                     format!("{}request `{}`: implementation `{}`, Lean model `{}`", first_diff(&m.request, &m.expected, &m.got), trunc(&m.request), trunc(&m.expected), trunc(&m.got)),
                     json!({"case": cases[m.tag], "request": m.request, "impl": m.expected, "model": m.got}),
                 );
             }
-            if mm.len() > 10 {
-                rep.count_n("fail.model", (mm.len() - 10) as u64);
+            if overflow > 0 {
+                rep.count_n("fail.model", overflow);
             }
             for (_tag, got) in mb.guard_skipped.borrow().iter() {
                 rep.skip(&format!("model-undecided:{got}"));
